@@ -53,10 +53,11 @@ LineVerdict(e) ==
         f3 == IF (Has(e, "ast_same") /\ ~e.ast_same) \/ (Has(e, "ast_after") /\ e.ast_after # e.ast) THEN ";ast-modified" ELSE ""
         f4 == IF Has(e, "str_same") /\ ~e.str_same THEN ";string-changed" ELSE ""
         f5 == IF Has(e, "same2") /\ ~e.same2 /\ ~MayVary(e.ast) THEN ";not-repeatable" ELSE ""
+        f5b == IF Has(e, "same3") /\ ~e.same3 /\ ~MayVary(e.ast) THEN ";history-dependent" ELSE ""
         f6 == IF Has(e, "mar") /\ e.mar # "ok" THEN ";not-json" ELSE ""
         f7 == IF Has(e, "eb") /\ e.eb \notin {"ok", "skip"} /\ ~(MayVary(e.ast) /\ e.eb \in {"different-value", "different-error"}) THEN ";evalbytes-differs" ELSE ""
         f8 == IF v = "no" /\ UndefDiffers(e.out, IF Has(e, "want_ast") THEN e.want_ast ELSE e.ast, e.inp, e.binds) THEN ";undefined-mismatch" ELSE ""
-    IN  v \o f1 \o f2 \o f3 \o f4 \o f5 \o f6 \o f7 \o f8
+    IN  v \o f1 \o f2 \o f3 \o f4 \o f5 \o f5b \o f6 \o f7 \o f8
 
 Check == /\ verdict = "pending"
          /\ verdict' = LineVerdict(TraceLines[l])
